@@ -99,14 +99,26 @@ def handleSearch (args res : List String) : Verdict :=
           match search tree n.toNat bucket.toNat dq Q with
           | none => .bad "model of Search ran out of fuel on a tree written by Save"
           | some model =>
-            let v1 := compareSearch "Search" model ret ind dq
-            let v2 : Verdict :=
-              if Q.exhaustive && Q.tol == 0 then
-                let bf := bruteforce n.toNat dq Q
-                if ind.map (fun i => dq i.toNat) == bf then .ok
-                else .bad s!"Search distances {showInts (ind.map fun i => dq i.toNat)} differ from the brute-force specification {showInts bf}"
-              else .ok
-            both v1 v2
+            let idists := ind.map fun i => dq i.toNat
+            if Q.exhaustive && Q.tol == 0 then
+              let v1 := compareSearch "Search" model ret ind dq
+              let bf := bruteforce n.toNat dq Q
+              let v2 : Verdict :=
+                if idists == bf then .ok
+                else .bad s!"Search distances {showInts idists} differ from the brute-force specification {showInts bf}"
+              both v1 v2
+            else
+              -- non-exhaustive / approximate queries: *which* points are returned depends on the traversal order, which the
+              -- property does not fix; a result that differs from the model's is accepted if it satisfies the documented
+              -- relation (distinct points of the window, ascending, and min(k, #window) of them when tol = 0)
+              match compareSearch "Search" model ret ind dq with
+              | .ok => .ok
+              | v =>
+                let window := ((List.range n.toNat).map dq).filter (inWindow Q)
+                let valid := ind.eraseDups.length == ind.length && ind.all (fun i => 0 ≤ i && i < n) &&
+                  idists.all (inWindow Q) && sortAsc idists == idists && ret == (idists.headD (-1)) &&
+                  (Q.tol != 0 || idists.length == min Q.k.toNat window.length)
+                if valid then .skip "valid non-exhaustive result, other traversal order than the model" else v
         both vInv vSearch
     | _, _ => .bad "parse"
   | _ => .bad "parse"
